@@ -1,4 +1,5 @@
 """Sidecar contracts for btc_hd_wallet/bip85.py (C12, C18) and BaseWallet.by_path (C17, C13)."""
+from . import summaries as _SUM_ALWAYS      # noqa: F401,E402  (summaries installed independent of import order)
 import z3
 from pyvc import prims as U
 from pyvc import logic as L
